@@ -364,6 +364,40 @@ def stop_tables(ctx, rep, rule):
     tg0, blocks0 = _walk_cell(body, prov, pv, vv, "GetResponse", 0)
     rep.check(rule, "OpGetBulk::to_python|0 varbinds/no-elements", not cells.has_call(tg0, "::append"), "nothing appended",
               "elements appended for an empty reply", body.loc())
+    # a non-empty reply is examined before the walk is ended: with at least one varbind, `stop` is raised only behind a call
+    # that consumes the varbind list (the element loop's next(), an all()/any()/filter()..collect() over it)
+    _SCAN = ("next", "all", "any", "fold", "try_fold", "for_each", "try_for_each", "find", "find_map", "position", "count", "collect", "filter_map",
+             "extend", "from_iter", "is_empty", "len")
+    scan = set()
+    for b in body.calls():
+        cp = callee_path(b.term) or ""
+        last = cp.split("::")[-1]
+        if last not in _SCAN:
+            continue
+        on_vars = bool(b.term["args"]) and flow.mentions(prov.operand(b.term["args"][0]), lambda s_: s_[0] == "f" and s_[2] == "vars")
+        if last in ("is_empty", "len"):
+            if not on_vars:          # the emptiness of what was collected from the reply, not of the reply
+                scan.add(b.idx)
+        elif "Iterator" in cp or "iter::" in cp:
+            scan.add(b.idx)
+    _walk_cell(body, prov, pv, vv, "GetResponse", ("range", 1, INF))
+    ev1, _ = _walk_cell.last
+
+    def ev1b(t):
+        # a list of at least one varbind has a first and a last element
+        if t[0] == "discr" and t[1][0] == "call" and (t[1][1] or "").split("::")[-1] in ("first", "last", "split_first", "split_last") and \
+                flow.mentions(t[1], lambda s_: s_[0] == "f" and s_[2] == "vars"):
+            return 1
+        return ev1(t)
+    early, _ = cells.feasible(body, prov, ev1b, cut={(bi, s_) for bi in scan for s_ in body.blocks[bi].succs()})
+    stops = [b.idx for b in body.calls() if (callee_path(b.term) or "").endswith("PyStopAsyncIteration::new_err") and b.idx in early]
+    if scan:
+        rep.check(rule, "OpGetBulk::to_python|>=1 varbinds/stop only after the reply was read", not stops, "no stop before the varbinds are consumed",
+                  "a reply with at least one varbind can end the walk before its varbinds are read (stop reachable without passing the element "
+                  "loop): the data values behind a leading exception value are lost", body.loc(body.blocks[stops[0]].term.get("line") if stops else None),
+                  obligation=True)
+    else:
+        rep.inconclusive(rule, "OpGetBulk::to_python|>=1 varbinds/stop only after the reply was read", "no call that consumes the varbind list recognised", body.loc())
     # the elements may be drawn through Iterator::filter(closure): a kind the closure rejects never reaches the loop body
     nx_src = [prov.operand(b.term["args"][0]) for b in body.calls() if (callee_path(b.term) or "").endswith("Iterator>::next") and b.term["args"]]
 
